@@ -69,12 +69,14 @@ RunAgrees(dom, ty, r) ==
 (* runs tile the whole domain without gaps or overlaps (scalar domain skips the surrogate block) *)
 DomLo(dom) == 0
 DomHi(dom) == CASE dom = "scalar" -> 1114111 [] dom = "u16" -> 65535 [] dom = "u32" -> 1179647
-Tiles(dom, runs) ==
+(* hi: the last value of the domain that was offered (the whole domain, or an initial part of it) *)
+TilesUpTo(dom, runs, hi) ==
   /\ Len(runs) >= 1
   /\ runs[1].lo = DomLo(dom)
-  /\ runs[Len(runs)].hi = DomHi(dom)
+  /\ runs[Len(runs)].hi = hi
   /\ \A i \in 1..(Len(runs) - 1) :
         \/ runs[i + 1].lo = runs[i].hi + 1
         \/ (dom = "scalar" /\ runs[i].hi = 55295 /\ runs[i + 1].lo = 57344)
   /\ \A i \in 1..Len(runs) : runs[i].lo <= runs[i].hi
+Tiles(dom, runs) == TilesUpTo(dom, runs, DomHi(dom))
 =============================================================================
